@@ -1,4 +1,5 @@
 import NasVerif.Spec.Tables
+import NasVerif.Spec.EEA
 /-! spec-side line-protocol ops: the pinned TS 24.501 tables with the independent renderer / table-driven decoder.
 Imports nothing regenerated, so this driver always builds. -/
 namespace NasVerif.Driver
@@ -40,6 +41,44 @@ def specOp (toks : List String) : Option String :=
     let man ← (ns.take m.man.length).mapM (fun n => fs.lookup n)
     let opt := (ns.drop m.man.length).map (fun n => fs.lookup n)
     pure ("ok " ++ bytesToHex (Spec.render m ⟨man, opt⟩))
+  | ["snea", alg, key, count, bearer, dir, data, bl] => do
+    let key ← hexToBytes key; let count ← count.toNat?; let bearer ← bearer.toNat?; let dir ← dir.toNat?
+    let data ← hexToBytes data; let bl ← bl.toNat?
+    let ibs := (Spec.bytesBits data).take bl
+    if ibs.length < bl then none
+    let nb := (bl + 7) / 8
+    if alg == "1" then pure ("ok " ++ bytesToHex (Spec.bitsToBytes nb (Spec.f8 key count bearer dir ibs)))
+    else if alg == "2" then pure ("ok " ++ bytesToHex (Spec.eea2 (Spec.AES.encryptBlock key) count bearer dir data))
+    else if alg == "3" then pure ("ok " ++ bytesToHex (Spec.bitsToBytes nb (Spec.eea3 key count bearer dir ibs)))
+    else none
+  | ["snasenc", alg, key, count, bearer, dir, data] => do
+    -- the in-place API on valid arguments = the standard function at LENGTH = 8 * octets
+    let key ← hexToBytes key; let count ← count.toNat?; let bearer ← bearer.toNat?; let dir ← dir.toNat?
+    let data ← hexToBytes data
+    let ibs := Spec.bytesBits data
+    if alg == "1" then pure ("ok " ++ bytesToHex (Spec.bitsToBytes data.length (Spec.f8 key count bearer dir ibs)))
+    else if alg == "2" then pure ("ok " ++ bytesToHex (Spec.eea2 (Spec.AES.encryptBlock key) count bearer dir data))
+    else if alg == "3" then pure ("ok " ++ bytesToHex (Spec.bitsToBytes data.length (Spec.eea3 key count bearer dir ibs)))
+    else none
+  | ["snasmac", alg, key, count, bearer, dir, data] => do
+    let key ← hexToBytes key; let count ← count.toNat?; let bearer ← bearer.toNat?; let dir ← dir.toNat?
+    let data ← hexToBytes data
+    let m := Spec.bytesBits data
+    let showW (w : BitVec 32) : String := bytesToHex [UInt8.ofNat (w.toNat / 2^24), UInt8.ofNat (w.toNat / 2^16), UInt8.ofNat (w.toNat / 2^8), UInt8.ofNat w.toNat]
+    if alg == "1" then pure ("ok " ++ showW (Spec.f9 key count bearer dir m))
+    else if alg == "2" then pure ("ok " ++ bytesToHex (Spec.eia2 (Spec.AES.encryptBlock key) count bearer dir data))
+    else if alg == "3" then pure ("ok " ++ showW (Spec.eia3 key count bearer dir m))
+    else none
+  | ["snia", alg, key, count, bearer, dir, data, bl] => do
+    let key ← hexToBytes key; let count ← count.toNat?; let bearer ← bearer.toNat?; let dir ← dir.toNat?
+    let data ← hexToBytes data; let bl ← bl.toNat?
+    let m := (Spec.bytesBits data).take bl
+    if m.length < bl then none
+    let showW (w : BitVec 32) : String := bytesToHex [UInt8.ofNat (w.toNat / 2^24), UInt8.ofNat (w.toNat / 2^16), UInt8.ofNat (w.toNat / 2^8), UInt8.ofNat w.toNat]
+    if alg == "1" then pure ("ok " ++ showW (Spec.f9 key count bearer dir m))
+    else if alg == "2" then pure ("ok " ++ bytesToHex (Spec.eia2 (Spec.AES.encryptBlock key) count bearer dir data))
+    else if alg == "3" then pure ("ok " ++ showW (Spec.eia3 key count bearer dir m))
+    else none
   | _ => none
 
 end NasVerif.Driver
